@@ -208,9 +208,17 @@ def run(ctx, pid):
             cn = prefix.lstrip("<").split("::")[0]
             cr_ = ctx.prog.crates.get(cn)
             hit = False
-            for g in (cr_.fn_list if cr_ is not None else []):
-                if not g.path.startswith(prefix):
-                    continue
+            # the function, its closures / promoted constants, and the same-crate helpers it calls (two levels)
+            fam_b = [g for g in (cr_.fn_list if cr_ is not None else []) if g.path.startswith(prefix)]
+            for _ in range(2):
+                for g in list(fam_b):
+                    for _b, t_ in g.calls():
+                        c_ = callee(t_)
+                        h = cr_.fns.get(c_.get("res") or c_["fn"]) or cr_.fns.get(c_["fn"]) if c_ else None
+                        if h is not None and h not in fam_b:
+                            fam_b.append(h)
+                            fam_b.extend(x for x in cr_.fn_list if x.path.startswith(h.path + "::") and x not in fam_b)
+            for g in fam_b:
                 for blk in g.blocks:
                     for st in blk[0]:
                         if st[0] == "=" and st[2][0] == "use" and st[2][1][0] == "k" and str(st[2][1][1].get("s", "")) == text:
